@@ -327,8 +327,10 @@ def judge(judges, lines, res, case, rule, text, k, names_ok, tags_ok, rule_silen
                     v.append((j, f"mode {md} raised {lines[md][4:]}"))
                 else:
                     r2 = b.run(md, rule, text, k) if opts.get("repeat", True) else None
+                    if r2 is not None and r2[0] == "EXC" and r2[1] == "Timeout":
+                        r2 = None   # the first call finished: a timer firing on the repeat is load, not a verdict
                     if r2 is not None and impl.render(r2, syms) != lines[md]:
-                        v.append((j, f"mode {md}: repeating the call gave a different result"))
+                        v.append((j, f"mode {md}: repeating the call gave a different result: {impl.render(r2, syms)[:200]}"))
         elif j == "C06":
             for md in have:
                 r = res[md]
